@@ -9,5 +9,7 @@ Packings == { << Rec(<<B(1)>>), Rec(<<B(2)>>) >>, << Rec(<<B(1), B(2)>>) >>, << 
               << Rec(<< <<"part1", 1>> >>), Rec(<< <<"part2", 1>>, B(2) >>) >>, << Rec(<<B(1)>>), Rec(<<B(2), B(3)>>) >>, <<>>,
               << Rec(<< <<"bmp3", 1>> >>), Rec(<<B(4)>>) >>,       \* one PDU carrying three rectangles
               << Rec(<< <<"ctl", "sync">>, <<"ctl", "coop">>, B(1), B(2) >>) >> }   \* handshake PDUs and bitmaps in one record
-MCScripts == { p \o <<End(m)>> : p \in Packings, m \in Modes } \cup Packings
+\* the PDU that ends the session in the same record as the PDUs in front of it, the server silent (socket open) afterwards
+InRecordEnds == { << Rec(<<B(1), <<t>> >>) >> : t \in {"ult", "bad_rdp", "bad_io"} } \cup { << Rec(<<B(1)>>), Rec(<<B(2), B(3), <<"ult">> >>) >> }
+MCScripts == { p \o <<End(m)>> : p \in Packings, m \in Modes } \cup Packings \cup InRecordEnds
 =============================================================================
